@@ -100,6 +100,20 @@ def run(rep, tier, seed):
             want_fields, want_payload = ref_fields(stack, full, st)
             fails = [] if out == ('OK', (tuple(want_fields), want_payload)) else ['%s parser on a large SCTP packet (%s, %d bytes): %s' % (stack, kind, len(full), str(out)[:120])]
             b.add('%s:sctp-large-%s' % (stack, kind), pc.model_line(stack, bits), out, pc.parse_model, fails, dict(layer='parser', op='parse', stack=stack, bits=bits[:2000] + '...'), key=(stack, kind, len(bits), bits[:64]))
+    # the smallest well-formed packet of every configuration: a header and nothing behind it must be accepted, with an empty payload
+    from refparse import ref_ipv6, ref_ipv4, ref_udp
+    for _ in range(3 if tier == 'quick' else 30):
+        for stack, pkt in P.minimal_packets(rnd):
+            bits = b2s(pkt)
+            out = pc.observe(stack, bits)
+            fails = []
+            if out[0] != 'OK':
+                fails.append('%s parser rejects its smallest well-formed packet (%d bytes): %s' % (stack, len(pkt), out[1]))
+            elif ''.join(x[2] for x in out[1][0]) + out[1][1] != bits or (stack in ('IPv6', 'IPv4', 'UDP', 'SCTP', 'CoAP') and out[1][1] != ''):
+                fails.append('%s parser on its smallest well-formed packet: fields and payload do not spell the header with an empty payload' % stack)
+            elif stack == 'IPv6' and tuple(out[1][0]) != tuple(ref_ipv6(pkt)) or stack == 'IPv4' and tuple(out[1][0]) != tuple(ref_ipv4(pkt)) or stack == 'UDP' and tuple(out[1][0]) != tuple(ref_udp(pkt)):
+                fails.append('%s parser on its smallest well-formed packet: fields differ from the RFC layout' % stack)
+            b.add('%s:minimal' % stack, pc.model_line(stack, bits), out, pc.parse_model, fails, dict(layer='parser', op='parse', stack=stack, bits=bits), key=(stack, 'min', bits))
     # CoAP messages with several hundred options (a long Uri-Path, repeated queries): the occurrence position of each delta / length /
     # value field counts on beyond 255 and 256
     for nopt in ([257, 300] if tier == 'quick' else [255, 256, 257, 300, 600, 1030]):
